@@ -164,8 +164,22 @@ def gen_c01(tier, rng):
     cases = small_exhaustive(tier, rng)
     cases += huge_frames(tier, rng)
     cases += random_batches(tier, rng, 1500 if tier == "quick" else 20000)
-    # any encoder history before the batch (the theorem quantifies over every encoder state)
-    for c in random_batches(tier, rng, 300 if tier == "quick" else 3000):
+    cases += history_batches(tier, rng, 300 if tier == "quick" else 3000)
+    # a stale reassembly on the endpoint before the batch arrives
+    for c in random_batches(tier, rng, 100 if tier == "quick" else 1000):
+        m = c.meta
+        first = proto.frame_header(1, m["dev"], 1, m["stream"], 77) + proto.message(5, 6, 0x04, 0x08, b"\x11" * 9)
+        c.ops.insert(len(m["pkts"]) + 2, "dec d feed " + first.hex())
+        c.tags = ("stale",)
+        cases.append(c)
+    return cases
+
+
+def history_batches(tier, rng, n_cases):
+    """any encoder history before the batch (the theorems quantify over every encoder state): earlier encode calls on the SAME
+    encoder with other size limits, the same or other message types, empty batches, restarts"""
+    cases = []
+    for c in random_batches(tier, rng, n_cases):
         m = c.meta
         n = len(m["pkts"])
         pre = []
@@ -182,13 +196,6 @@ def gen_c01(tier, rng):
         c.ops[pos:pos] = pre
         c.tags = ("history",)
         cases.append(c)
-    # a stale reassembly on the endpoint before the batch arrives
-    for c in random_batches(tier, rng, 100 if tier == "quick" else 1000):
-        m = c.meta
-        first = proto.frame_header(1, m["dev"], 1, m["stream"], 77) + proto.message(5, 6, 0x04, 0x08, b"\x11" * 9)
-        c.ops.insert(len(m["pkts"]) + 2, "dec d feed " + first.hex())
-        c.tags = ("stale",)
-        cases.append(c)
     return cases
 
 
@@ -196,6 +203,7 @@ def gen_c07(tier, rng):
     cases = small_exhaustive(tier, rng)
     cases += huge_frames(tier, rng)
     cases += random_batches(tier, rng, 1500 if tier == "quick" else 20000, same_version=False)
+    cases += history_batches(tier, rng, 300 if tier == "quick" else 3000)
     # empty batch
     for mx in (25, 64, 1500):
         cases.append(Case("empty", ["enc e dev 3", "enc e encode 0 %d" % mx, "enc e seq", "enc e encode %d %d" % (mx, mx), "enc e seq"], tags=("empty",),
@@ -292,10 +300,10 @@ def wrap_with_segments(tier, kind):
     seg2 = gpkt(40, 7, ty=0x0104)          # two segments at max 48 (24 payload bytes per frame)
     seg3 = gpkt(60, 9, ty=0x0104)          # three segments
     small = gpkt(5, 1, ty=0x0104)
-    hist = [65529, 65531] if tier == "quick" else [65524, 65525, 65526, 65527, 65528, 65529, 65530, 65531, 65532, 65533, 65534, 65535]
+    hist = [65529, 65531, 65533] if tier == "quick" else [65524, 65525, 65526, 65527, 65528, 65529, 65530, 65531, 65532, 65533, 65534, 65535]
     for n in hist:
         ops = [pline(small, "p0"), pline(seg2, "p1"), pline(seg3, "p2"), pline(gpkt(30, 3, ty=0x0301 + 0x00FE), "p3"), "enc e dev 9", "enc e stream 3"]
-        ops += ["enc e encode 0 25 p0"] * n
+        ops += ["enc e encode 0 48 p0"] * n          # one frame per call: the counter before the final batch is n
         ops += ["enc e seq"]
         final = "encode 0 48 p1 p1 p1 p1 p3 p2 p2 p0"
         if kind == "c09":
